@@ -307,12 +307,8 @@ Definition ispace (c : acase) (x : sp) : list item * list (N * N) :=
   match index_space (get_sp (a_m (final_model c)) x) with Ok r => r | Panic _ => ([], []) end.
 (* D06 (an import added after parsing and then deleted stayed in the index space) is repaired: recalculate_ids
    drops every deleted item; the class is gone. *)
-(* D24: iterator-level add_global followed by add_imported_global: the returned id collides *)
-Fixpoint after_a (p q : aop -> bool) (h : list aop) : bool :=
-  match h with [] => false | o :: h' => (p o && existsb q h') || after_a p q h' end.
-Definition is_itadd (o : aop) := match o with OItAddGlobal _ _ _ => true | _ => false end.
-Definition is_addimp_g (o : aop) := match o with OAddImpGlobal _ _ => true | _ => false end.
-Definition known_D24 (c : acase) : bool := after_a is_itadd is_addimp_g (ah_ops c).
+(* D24 (iterator-level add_global followed by add_imported_global: the returned id collided) is repaired:
+   ModuleIterator::add_global goes through Module::add_global_internal; the class is gone. *)
 (* class 300: DataType::FuncRef / ExternRef (what the parser reports for (ref func) / (ref extern)) are emitted
    as the nullable funcref / externref *)
 Definition nonnull_req (t : gty) : bool := N.eqb (gt_ty t) 7 || N.eqb (gt_ty t) 8.
@@ -324,7 +320,7 @@ Definition cls (c : acase) (l : list (N * (acase -> bool))) : list N :=
   flat_map (fun kp : N * (acase -> bool) => if snd kp c then [fst kp] else []) l.
 
 Definition verdict30 (c : acase) : Util.verdict :=
-  (agree c, in_domain c, holds c, cls c [K 24 known_D24; K 300 known_300]).
+  (agree c, in_domain c, holds c, cls c [K 300 known_300]).
 Definition report_C30 := run_report verdict30.
 
 (* ------------------------------------------------------------------------------------------ *)
